@@ -1,4 +1,4 @@
-EXTRACT_DEPS = ['BotLine.vo']
+EXTRACT_DEPS = ['BotLine.vo', 'WeightsJson.vo']
 
 PROP = dict(
     model_args=[],
@@ -7,19 +7,23 @@ PROP = dict(
     rule='entry points M ParseMove, S ParseServer, T ParseTPS, F PTN file (ParsePTN + InitialPosition + full replay), C chat lines '
          '(ParseTell/ParseShout/ParseShoutRoom; L1 = the returned strings, model = BotLine.v; ALL strings up to length 3-7 over small '
          'alphabets {<,>,blank,a,LF,TAB,0x80,...} bare and behind the literal prefixes of the three patterns, all short room names over '
-         'the white-space bytes, real lines and mutations), J weights JSON, E TEI command stream. Inputs: ALL strings up to length 3 (quick) / 4 (thorough) '
+         'the white-space bytes, real lines and mutations), J weights JSON (objects of integers over the real feature names, the out-of-range spellings of the stringer and unknown names; the decoded pairs go to the model), E TEI command stream. Inputs: ALL strings up to length 3 (quick) / 4 (thorough) '
          'over each move parser\'s alphabet, structure-aware mutations (drop/duplicate/swap/truncate/insert/replace, raw bytes) of valid '
          'spellings, TPS strings, rendered PTN files and TEI scripts, random byte strings over each grammar\'s alphabet, hand-picked edge cases '
          '(empty cells, lone markers, unterminated comments, out-of-range sizes, commands out of order, go on finished games, huge numbers). '
          'Every call runs under recover and a deadline. non-trivial = input longer than one byte; distinct = distinct (entry, input)',
-    assumptions=['encoding/json (used by Weights.UnmarshalJSON) is trusted to be total: that entry point is checked by the oracle only; the regexp '
+    assumptions=['encoding/json (the decoding of the weight text into map[string]int64) is trusted to be total; the Go-specific part of ai/json.go (name '
+                 'lookup in the table built by init(), ws[f] = v) is modelled (WeightsJson.v) over the name table REGENERATED from the linked package on '
+                 'every run, and its class is compared with Weights.UnmarshalJSON on every J text that is a JSON object of integers; the regexp '
                  'package is not modelled, its results on the three chat patterns are compared with the direct functions of BotLine.v on every generated string', 'tokens longer than bufio.MaxScanTokenSize (64 KiB) are not generated'],
 )
 MANIFEST = dict(
     text="Coq theorems, each for EVERY byte list: the models of ParseMove, ParseServer, ParseTPS (incl. FromSquares), of the PTN-file entry "
          "point (ParsePTN, InitialPosition, whole replay through the Iterator, PositionAtMove) and of the TEI command stream (Engine.Run with "
          "an arbitrary searcher oracle) never return Panic; the chat-line parsers (total by construction) return exactly the unique split of the "
-         "line in the language of their pattern, or empty strings, and equal an ordered backtracking search over the patterns. The models' outcome class (value / error / panic) is compared with the "
+         "line in the language of their pattern, or empty strings, and equal an ordered backtracking search over the patterns; every index of the "
+         "regenerated feature-name table of ai/json.go is below MaxFeature (by computation on every run), hence the loop of Weights.UnmarshalJSON "
+         "over the decoded map never panics and its class does not depend on the map's iteration order. The models' outcome class (value / error / panic) is compared with the "
          "implementation's on every generated string, exhaustively for short strings, and every call runs under recover and a deadline.",
     ref='5.13', technique='Coq totality proofs over models with explicit Panic results + model/implementation differential on byte strings (exhaustive for short strings) + crash/hang oracle',
     note="Trusted: Coq kernel, extraction, transcriptions (their Panic guards are exactly what the correspondence validates), encoding/json totality, Go's regexp semantics on the three chat patterns (validated by execution).")
